@@ -5,7 +5,7 @@ Extraction "c16_model.ml"
   sc_mpi_sizeof sc_gather sc_gatherv sc_allgather sc_allgatherv sc_alltoall sc_reduce sc_reduce_scatter_block sc_allreduce
   sc_scan sc_exscan sc_bcast sc_barrier sc_type_size sc_pack_size sc_pack sc_unpack
   sc_comm_size sc_comm_rank sc_comm_dup sc_comm_split sc_comm_free sc_comm_group sc_group_size sc_group_rank sc_group_free
-  sc_init_thread sc_wait sc_waitall sc_testall sc_waitsome sc_error_class sc_error_string h_MPI_ERR_UNKNOWN
+  sc_init_thread sc_wait sc_waitall sc_testall sc_waitsome sc_error_class sc_error_string h_MPI_ERR_UNKNOWN sc_pack_codes
   h_MPI_BYTE h_MPI_CHAR h_MPI_UNSIGNED_CHAR h_MPI_SHORT h_MPI_UNSIGNED_SHORT h_MPI_INT h_MPI_UNSIGNED h_MPI_LONG
   h_MPI_UNSIGNED_LONG h_MPI_LONG_LONG_INT h_MPI_FLOAT h_MPI_DOUBLE h_MPI_LONG_DOUBLE h_MPI_2INT h_MPI_DOUBLE_INT
   h_MPI_SUCCESS h_MPI_UNDEFINED h_MPI_REQUEST_NULL h_MPI_COMM_NULL h_MPI_COMM_WORLD h_MPI_GROUP_NULL known_codes.
